@@ -83,7 +83,8 @@ def lean_obligations(pid, tier):
             if rc != 0:
                 res["errors"].append("regeneration of Lean input failed: " + out[-2000:])
                 return res
-        rc, out = sh(["lake", "build", f"RSVerif.Properties.{pid}", "rsmodel"], cwd=LEAN, timeout=3600)
+        rc, out = sh(["lake", "build", f"RSVerif.Properties.{pid}", "rsmodel"] + list(PROPS[pid].get("extra_targets", [])),
+                     cwd=LEAN, timeout=3600)
         if rc != 0:
             res["errors"].append("lake build failed:\n" + out[-4000:])
             return res
